@@ -1034,6 +1034,8 @@ func New(saveMethod func(t Treasure, guardID guard.ID) TreasureStatus) Treasure 
 // LoadFromClone loads the treasure from a clone
 func (t *treasure) LoadFromClone(guardID guard.ID, clone Treasure) {
 	_ = t.Guard.CanExecute(guardID)
+	t.mu.Lock()
+	defer t.mu.Unlock()
 	t.treasure = clone.(*treasure).treasure
 }
 
@@ -1042,6 +1044,12 @@ func (t *treasure) GetContentType() ContentType {
 
 	t.mu.RLock()
 	defer t.mu.RUnlock()
+
+	return t.contentType()
+}
+
+// contentType is GetContentType for callers that already hold t.mu
+func (t *treasure) contentType() ContentType {
 
 	if t.treasure.Content == nil || t.treasure.Content.Void {
 		return ContentTypeVoid
@@ -1093,6 +1101,8 @@ func (t *treasure) GetContentType() ContentType {
 
 func (t *treasure) ResetContentByteArray(guardID guard.ID) {
 	_ = t.Guard.CanExecute(guardID)
+	t.mu.Lock()
+	defer t.mu.Unlock()
 	if t.treasure.Content != nil && t.treasure.Content.ByteArray != nil {
 		t.contentChanged = true
 		t.contentTypeChanged = true
@@ -1101,6 +1111,8 @@ func (t *treasure) ResetContentByteArray(guardID guard.ID) {
 }
 func (t *treasure) ResetContentBool(guardID guard.ID) {
 	_ = t.Guard.CanExecute(guardID)
+	t.mu.Lock()
+	defer t.mu.Unlock()
 	if t.treasure.Content != nil && t.treasure.Content.Boolean != nil {
 		t.contentChanged = true
 		t.contentTypeChanged = true
@@ -1109,6 +1121,8 @@ func (t *treasure) ResetContentBool(guardID guard.ID) {
 }
 func (t *treasure) ResetContentFloat32(guardID guard.ID) {
 	_ = t.Guard.CanExecute(guardID)
+	t.mu.Lock()
+	defer t.mu.Unlock()
 	if t.treasure.Content != nil && t.treasure.Content.Float32 != nil {
 		t.contentChanged = true
 		t.contentTypeChanged = true
@@ -1117,6 +1131,8 @@ func (t *treasure) ResetContentFloat32(guardID guard.ID) {
 }
 func (t *treasure) ResetContentFloat64(guardID guard.ID) {
 	_ = t.Guard.CanExecute(guardID)
+	t.mu.Lock()
+	defer t.mu.Unlock()
 	if t.treasure.Content != nil && t.treasure.Content.Float64 != nil {
 		t.contentChanged = true
 		t.contentTypeChanged = true
@@ -1125,6 +1141,8 @@ func (t *treasure) ResetContentFloat64(guardID guard.ID) {
 }
 func (t *treasure) ResetContentUint8(guardID guard.ID) {
 	_ = t.Guard.CanExecute(guardID)
+	t.mu.Lock()
+	defer t.mu.Unlock()
 	if t.treasure.Content != nil && t.treasure.Content.Uint8 != nil {
 		t.contentChanged = true
 		t.contentTypeChanged = true
@@ -1133,6 +1151,8 @@ func (t *treasure) ResetContentUint8(guardID guard.ID) {
 }
 func (t *treasure) ResetContentUint16(guardID guard.ID) {
 	_ = t.Guard.CanExecute(guardID)
+	t.mu.Lock()
+	defer t.mu.Unlock()
 	if t.treasure.Content != nil && t.treasure.Content.Uint16 != nil {
 		t.contentChanged = true
 		t.contentTypeChanged = true
@@ -1141,6 +1161,8 @@ func (t *treasure) ResetContentUint16(guardID guard.ID) {
 }
 func (t *treasure) ResetContentUint32(guardID guard.ID) {
 	_ = t.Guard.CanExecute(guardID)
+	t.mu.Lock()
+	defer t.mu.Unlock()
 	if t.treasure.Content != nil && t.treasure.Content.Uint32 != nil {
 		t.contentChanged = true
 		t.contentTypeChanged = true
@@ -1149,6 +1171,8 @@ func (t *treasure) ResetContentUint32(guardID guard.ID) {
 }
 func (t *treasure) ResetContentUint64(guardID guard.ID) {
 	_ = t.Guard.CanExecute(guardID)
+	t.mu.Lock()
+	defer t.mu.Unlock()
 	if t.treasure.Content != nil && t.treasure.Content.Uint64 != nil {
 		t.contentChanged = true
 		t.contentTypeChanged = true
@@ -1157,6 +1181,8 @@ func (t *treasure) ResetContentUint64(guardID guard.ID) {
 }
 func (t *treasure) ResetContentInt8(guardID guard.ID) {
 	_ = t.Guard.CanExecute(guardID)
+	t.mu.Lock()
+	defer t.mu.Unlock()
 	if t.treasure.Content != nil && t.treasure.Content.Int8 != nil {
 		t.contentChanged = true
 		t.contentTypeChanged = true
@@ -1165,6 +1191,8 @@ func (t *treasure) ResetContentInt8(guardID guard.ID) {
 }
 func (t *treasure) ResetContentInt16(guardID guard.ID) {
 	_ = t.Guard.CanExecute(guardID)
+	t.mu.Lock()
+	defer t.mu.Unlock()
 	if t.treasure.Content != nil && t.treasure.Content.Int16 != nil {
 		t.contentChanged = true
 		t.contentTypeChanged = true
@@ -1173,6 +1201,8 @@ func (t *treasure) ResetContentInt16(guardID guard.ID) {
 }
 func (t *treasure) ResetContentInt32(guardID guard.ID) {
 	_ = t.Guard.CanExecute(guardID)
+	t.mu.Lock()
+	defer t.mu.Unlock()
 	if t.treasure.Content != nil && t.treasure.Content.Int32 != nil {
 		t.contentChanged = true
 		t.contentTypeChanged = true
@@ -1181,6 +1211,8 @@ func (t *treasure) ResetContentInt32(guardID guard.ID) {
 }
 func (t *treasure) ResetContentInt64(guardID guard.ID) {
 	_ = t.Guard.CanExecute(guardID)
+	t.mu.Lock()
+	defer t.mu.Unlock()
 	if t.treasure.Content != nil && t.treasure.Content.Int64 != nil {
 		t.contentChanged = true
 		t.contentTypeChanged = true
@@ -1189,6 +1221,8 @@ func (t *treasure) ResetContentInt64(guardID guard.ID) {
 }
 func (t *treasure) ResetContentUint32Slice(guardID guard.ID) {
 	_ = t.Guard.CanExecute(guardID)
+	t.mu.Lock()
+	defer t.mu.Unlock()
 	if t.treasure.Content != nil && t.treasure.Content.Uint32Slice != nil {
 		t.contentChanged = true
 		t.contentTypeChanged = true
@@ -1198,6 +1232,8 @@ func (t *treasure) ResetContentUint32Slice(guardID guard.ID) {
 
 func (t *treasure) ResetContentString(guardID guard.ID) {
 	_ = t.Guard.CanExecute(guardID)
+	t.mu.Lock()
+	defer t.mu.Unlock()
 	if t.treasure.Content != nil && t.treasure.Content.String != nil {
 		t.contentChanged = true
 		t.contentTypeChanged = true
@@ -1206,6 +1242,8 @@ func (t *treasure) ResetContentString(guardID guard.ID) {
 }
 func (t *treasure) ResetContentVoid(guardID guard.ID) {
 	_ = t.Guard.CanExecute(guardID)
+	t.mu.Lock()
+	defer t.mu.Unlock()
 	if t.treasure.Content != nil && t.treasure.Content.Void {
 		t.contentTypeChanged = true
 		t.contentChanged = true
@@ -1215,11 +1253,15 @@ func (t *treasure) ResetContentVoid(guardID guard.ID) {
 
 func (t *treasure) SetCreatedBy(guardID guard.ID, createdBy string) {
 	_ = t.Guard.CanExecute(guardID)
+	t.mu.Lock()
+	defer t.mu.Unlock()
 	t.createdByChanged = true
 	t.treasure.CreatedBy = createdBy
 }
 func (t *treasure) SetModifiedBy(guardID guard.ID, modifiedBy string) {
 	_ = t.Guard.CanExecute(guardID)
+	t.mu.Lock()
+	defer t.mu.Unlock()
 	t.modifiedByChanged = true
 	t.treasure.ModifiedBy = modifiedBy
 }
@@ -1227,6 +1269,8 @@ func (t *treasure) SetModifiedBy(guardID guard.ID, modifiedBy string) {
 func (t *treasure) Clone(guardID guard.ID) Treasure {
 
 	_ = t.Guard.CanExecute(guardID)
+	t.mu.RLock()
+	defer t.mu.RUnlock()
 
 	newObj := &treasure{
 		treasure: Model{
@@ -1261,6 +1305,8 @@ func (t *treasure) Clone(guardID guard.ID) Treasure {
 
 func (t *treasure) CloneContent(guardID guard.ID) Content {
 	_ = t.Guard.CanExecute(guardID)
+	t.mu.RLock()
+	defer t.mu.RUnlock()
 	return t.cloneContent()
 }
 
@@ -1321,9 +1367,11 @@ func (t *treasure) cloneContent() Content {
 func (t *treasure) SetContent(guardID guard.ID, content Content) {
 
 	_ = t.Guard.CanExecute(guardID)
+	t.mu.Lock()
+	defer t.mu.Unlock()
 
 	t.contentChanged = false
-	if t.IsContentTypeChanged() {
+	if t.contentTypeChanged {
 		t.contentChanged = true
 	}
 
@@ -1332,6 +1380,8 @@ func (t *treasure) SetContent(guardID guard.ID, content Content) {
 }
 
 func (t *treasure) CheckIfContentChanged(newContent *Content) bool {
+	t.mu.RLock()
+	defer t.mu.RUnlock()
 
 	// ha még nincs benne tartalom, de most bekerülne akkor biztos új tartalom lesz
 	if t.treasure.Content == nil && newContent != nil {
@@ -1339,7 +1389,7 @@ func (t *treasure) CheckIfContentChanged(newContent *Content) bool {
 	}
 
 	// lekédezzük a treasure jelenlegi content típusát
-	ct := t.GetContentType()
+	ct := t.contentType()
 
 	switch ct {
 	case ContentTypeVoid:
@@ -1414,6 +1464,8 @@ func (t *treasure) BodySetFileName(guardID guard.ID, fileName string) {
 	if canExecuteErr := t.Guard.CanExecute(guardID); canExecuteErr != nil {
 		return
 	}
+	t.mu.Lock()
+	defer t.mu.Unlock()
 	// does not increase the version because the fileName is not part of the content
 	t.treasure.FileName = &fileName
 }
@@ -1422,6 +1474,8 @@ func (t *treasure) BodySetForDeletion(guardID guard.ID, byUserID string, shadowD
 	if canExecuteErr := t.Guard.CanExecute(guardID); canExecuteErr != nil {
 		return
 	}
+	t.mu.Lock()
+	defer t.mu.Unlock()
 	timeNow := time.Now().UTC().UnixNano()
 
 	t.deletedAtChanged = true
@@ -1451,6 +1505,8 @@ func (t *treasure) GetKey() string {
 
 func (t *treasure) SetExpirationTime(guardID guard.ID, expirationTime time.Time) {
 	_ = t.Guard.CanExecute(guardID)
+	t.mu.Lock()
+	defer t.mu.Unlock()
 	t.expirationTimeChanged = true
 	// A zero time.Time means "no expiration" (matches the ExpirationTime == 0
 	// convention used by IsExpired and the EXPIRATION_TIME index). UnixNano
@@ -1501,6 +1557,8 @@ func (t *treasure) GetShadowDelete() bool {
 
 func (t *treasure) SetModifiedAt(guardID guard.ID, modifiedAt time.Time) {
 	_ = t.Guard.CanExecute(guardID)
+	t.mu.Lock()
+	defer t.mu.Unlock()
 	t.modifiedAtChanged = true
 	t.treasure.ModifiedAt = modifiedAt.UTC().UnixNano()
 }
@@ -1528,6 +1586,8 @@ func (t *treasure) BodySetKey(guardID guard.ID, key string) {
 	if canExecuteErr := t.Guard.CanExecute(guardID); canExecuteErr != nil {
 		return // do nothing
 	}
+	t.mu.Lock()
+	defer t.mu.Unlock()
 	t.treasure.DeletedBy = ""
 	t.treasure.DeletedAt = 0
 	t.treasure.Key = key
@@ -1538,6 +1598,8 @@ func (t *treasure) ConvertToByte(guardID guard.ID) ([]byte, error) {
 	if canExecuteErr := t.Guard.CanExecute(guardID); canExecuteErr != nil {
 		return nil, canExecuteErr
 	}
+	t.mu.RLock()
+	defer t.mu.RUnlock()
 
 	// copy the treasure to a new variable
 	// and set the filePointer to empty one, because we don't want to save the filePointer to the Chronicler
@@ -1576,6 +1638,8 @@ func (t *treasure) LoadFromByte(guardID guard.ID, b []byte, fileName string) err
 	if canExecuteErr := t.Guard.CanExecute(guardID); canExecuteErr != nil {
 		return canExecuteErr
 	}
+	t.mu.Lock()
+	defer t.mu.Unlock()
 
 	// bináris adat betöltése
 	buf := bytes.NewReader(b)
@@ -1593,6 +1657,8 @@ func (t *treasure) LoadFromByte(guardID guard.ID, b []byte, fileName string) err
 
 func (t *treasure) SetContentVoid(guardID guard.ID) {
 	_ = t.Guard.CanExecute(guardID)
+	t.mu.Lock()
+	defer t.mu.Unlock()
 
 	// if the content is not changed, do nothing
 	if t.treasure.Content != nil && t.treasure.Content.Void {
@@ -1609,6 +1675,8 @@ func (t *treasure) SetContentVoid(guardID guard.ID) {
 
 func (t *treasure) SetContentString(guardID guard.ID, content string) {
 	_ = t.Guard.CanExecute(guardID)
+	t.mu.Lock()
+	defer t.mu.Unlock()
 
 	// if the content is not changed, do nothing
 	if t.treasure.Content != nil && t.treasure.Content.String != nil && *t.treasure.Content.String == content {
@@ -1623,6 +1691,8 @@ func (t *treasure) SetContentString(guardID guard.ID, content string) {
 
 func (t *treasure) SetContentUint8(guardID guard.ID, content uint8) {
 	_ = t.Guard.CanExecute(guardID)
+	t.mu.Lock()
+	defer t.mu.Unlock()
 	// if the content is not changed, do nothing
 	if t.treasure.Content != nil && t.treasure.Content.Uint8 != nil && *t.treasure.Content.Uint8 == content {
 		return
@@ -1634,6 +1704,8 @@ func (t *treasure) SetContentUint8(guardID guard.ID, content uint8) {
 }
 func (t *treasure) SetContentUint16(guardID guard.ID, content uint16) {
 	_ = t.Guard.CanExecute(guardID)
+	t.mu.Lock()
+	defer t.mu.Unlock()
 	// if the content is not changed, do nothing
 	if t.treasure.Content != nil && t.treasure.Content.Uint16 != nil && *t.treasure.Content.Uint16 == content {
 		return
@@ -1645,6 +1717,8 @@ func (t *treasure) SetContentUint16(guardID guard.ID, content uint16) {
 }
 func (t *treasure) SetContentUint32(guardID guard.ID, content uint32) {
 	_ = t.Guard.CanExecute(guardID)
+	t.mu.Lock()
+	defer t.mu.Unlock()
 	// if the content is not changed, do nothing
 	if t.treasure.Content != nil && t.treasure.Content.Uint32 != nil && *t.treasure.Content.Uint32 == content {
 		return
@@ -1656,6 +1730,8 @@ func (t *treasure) SetContentUint32(guardID guard.ID, content uint32) {
 }
 func (t *treasure) SetContentUint64(guardID guard.ID, content uint64) {
 	_ = t.Guard.CanExecute(guardID)
+	t.mu.Lock()
+	defer t.mu.Unlock()
 	// if the content is not changed, do nothing
 	if t.treasure.Content != nil && t.treasure.Content.Uint64 != nil && *t.treasure.Content.Uint64 == content {
 		return
@@ -1667,6 +1743,8 @@ func (t *treasure) SetContentUint64(guardID guard.ID, content uint64) {
 }
 func (t *treasure) SetContentInt8(guardID guard.ID, content int8) {
 	_ = t.Guard.CanExecute(guardID)
+	t.mu.Lock()
+	defer t.mu.Unlock()
 	// if the content is not changed, do nothing
 	if t.treasure.Content != nil && t.treasure.Content.Int8 != nil && *t.treasure.Content.Int8 == content {
 		return
@@ -1678,6 +1756,8 @@ func (t *treasure) SetContentInt8(guardID guard.ID, content int8) {
 }
 func (t *treasure) SetContentInt16(guardID guard.ID, content int16) {
 	_ = t.Guard.CanExecute(guardID)
+	t.mu.Lock()
+	defer t.mu.Unlock()
 	// if the content is not changed, do nothing
 	if t.treasure.Content != nil && t.treasure.Content.Int16 != nil && *t.treasure.Content.Int16 == content {
 		return
@@ -1689,6 +1769,8 @@ func (t *treasure) SetContentInt16(guardID guard.ID, content int16) {
 }
 func (t *treasure) SetContentInt32(guardID guard.ID, content int32) {
 	_ = t.Guard.CanExecute(guardID)
+	t.mu.Lock()
+	defer t.mu.Unlock()
 	// if the content is not changed, do nothing
 	if t.treasure.Content != nil && t.treasure.Content.Int32 != nil && *t.treasure.Content.Int32 == content {
 		return
@@ -1701,6 +1783,8 @@ func (t *treasure) SetContentInt32(guardID guard.ID, content int32) {
 func (t *treasure) SetContentInt64(guardID guard.ID, content int64) {
 
 	_ = t.Guard.CanExecute(guardID)
+	t.mu.Lock()
+	defer t.mu.Unlock()
 
 	// if the content is not changed, do nothing
 	if t.treasure.Content != nil && t.treasure.Content.Int64 != nil && *t.treasure.Content.Int64 == content {
@@ -1715,6 +1799,8 @@ func (t *treasure) SetContentInt64(guardID guard.ID, content int64) {
 
 func (t *treasure) SetContentFloat32(guardID guard.ID, content float32) {
 	_ = t.Guard.CanExecute(guardID)
+	t.mu.Lock()
+	defer t.mu.Unlock()
 
 	// if treasure content is not changed, do nothing
 	if t.treasure.Content != nil && t.treasure.Content.Float32 != nil && *t.treasure.Content.Float32 == content {
@@ -1729,6 +1815,8 @@ func (t *treasure) SetContentFloat32(guardID guard.ID, content float32) {
 
 func (t *treasure) SetContentFloat64(guardID guard.ID, content float64) {
 	_ = t.Guard.CanExecute(guardID)
+	t.mu.Lock()
+	defer t.mu.Unlock()
 
 	// if treasure content is not changed, do nothing
 	if t.treasure.Content != nil && t.treasure.Content.Float64 != nil && *t.treasure.Content.Float64 == content {
@@ -1743,6 +1831,8 @@ func (t *treasure) SetContentFloat64(guardID guard.ID, content float64) {
 
 func (t *treasure) SetContentBool(guardID guard.ID, content bool) {
 	_ = t.Guard.CanExecute(guardID)
+	t.mu.Lock()
+	defer t.mu.Unlock()
 
 	// if treasure content is not changed, do nothing
 	if t.treasure.Content != nil && t.treasure.Content.Boolean != nil && *t.treasure.Content.Boolean == content {
@@ -1758,6 +1848,8 @@ func (t *treasure) SetContentBool(guardID guard.ID, content bool) {
 
 func (t *treasure) SetContentByteArray(guardID guard.ID, content []byte) {
 	_ = t.Guard.CanExecute(guardID)
+	t.mu.Lock()
+	defer t.mu.Unlock()
 	// if the content is not changed, do nothing
 	if t.treasure.Content != nil && t.treasure.Content.ByteArray != nil && bytes.Equal(t.treasure.Content.ByteArray, content) {
 		return
@@ -1771,6 +1863,8 @@ func (t *treasure) SetContentByteArray(guardID guard.ID, content []byte) {
 // SetCreatedAt set the created at of the treasure to the current time without locking the mutex
 func (t *treasure) SetCreatedAt(guardID guard.ID, createdAt time.Time) {
 	_ = t.Guard.CanExecute(guardID)
+	t.mu.Lock()
+	defer t.mu.Unlock()
 	t.createdAtChanged = true
 	t.treasure.CreatedAt = createdAt.UTC().UnixNano()
 }
@@ -1910,204 +2004,213 @@ func (t *treasure) IsDifferentFrom(guardID guard.ID, otherTreasure Treasure) boo
 
 	_ = t.Guard.CanExecute(guardID)
 
-	if t.treasure.Key != otherTreasure.GetKey() {
+	// compare a snapshot taken under the read lock; the other treasure's getters take its own lock
+	t.mu.RLock()
+	own := t.treasure
+	if own.Content != nil {
+		ownContent := t.cloneContent()
+		own.Content = &ownContent
+	}
+	t.mu.RUnlock()
+
+	if own.Key != otherTreasure.GetKey() {
 		return true
 	}
-	if t.treasure.ExpirationTime != otherTreasure.GetExpirationTime() {
+	if own.ExpirationTime != otherTreasure.GetExpirationTime() {
 		return true
 	}
 
 	cat := otherTreasure.GetCreatedAt()
 
-	if t.treasure.CreatedAt != cat {
+	if own.CreatedAt != cat {
 		return true
 	}
-	if t.treasure.CreatedBy != otherTreasure.GetCreatedBy() {
+	if own.CreatedBy != otherTreasure.GetCreatedBy() {
 		return true
 	}
-	if t.treasure.DeletedAt != otherTreasure.GetDeletedAt() {
+	if own.DeletedAt != otherTreasure.GetDeletedAt() {
 		return true
 	}
-	if t.treasure.DeletedBy != otherTreasure.GetDeletedBy() {
+	if own.DeletedBy != otherTreasure.GetDeletedBy() {
 		return true
 	}
-	if t.treasure.ModifiedAt != otherTreasure.GetModifiedAt() {
+	if own.ModifiedAt != otherTreasure.GetModifiedAt() {
 		return true
 	}
-	if t.treasure.ModifiedBy != otherTreasure.GetModifiedBy() {
+	if own.ModifiedBy != otherTreasure.GetModifiedBy() {
 		return true
 	}
 
 	switch otherTreasure.GetContentType() {
 	case ContentTypeVoid:
-		if t.treasure.Content == nil || (t.treasure.Content != nil && t.treasure.Content.Void) {
+		if own.Content == nil || (own.Content != nil && own.Content.Void) {
 			return true
 		}
 	case ContentTypeString:
-		if t.treasure.Content == nil {
+		if own.Content == nil {
 			return true
 		} else {
 			stringContent, err := otherTreasure.GetContentString()
 			if err != nil {
 				return true
 			}
-			if *t.treasure.Content.String != stringContent {
+			if *own.Content.String != stringContent {
 				return true
 			}
 		}
 	case ContentTypeUint8:
-		if t.treasure.Content == nil {
+		if own.Content == nil {
 			return true
 		} else {
 			uintContent, err := otherTreasure.GetContentUint8()
 			if err != nil {
 				return true
 			}
-			if *t.treasure.Content.Uint8 != uintContent {
+			if *own.Content.Uint8 != uintContent {
 				return true
 			}
 		}
 	case ContentTypeUint16:
-		if t.treasure.Content == nil {
+		if own.Content == nil {
 			return true
 		} else {
 			uintContent, err := otherTreasure.GetContentUint16()
 			if err != nil {
 				return true
 			}
-			if *t.treasure.Content.Uint16 != uintContent {
+			if *own.Content.Uint16 != uintContent {
 				return true
 			}
 		}
 	case ContentTypeUint32:
-		if t.treasure.Content == nil {
+		if own.Content == nil {
 			return true
 		} else {
 			uintContent, err := otherTreasure.GetContentUint32()
 			if err != nil {
 				return true
 			}
-			if *t.treasure.Content.Uint32 != uintContent {
+			if *own.Content.Uint32 != uintContent {
 				return true
 			}
 		}
 	case ContentTypeUint64:
-		if t.treasure.Content == nil {
+		if own.Content == nil {
 			return true
 		} else {
 			uintContent, err := otherTreasure.GetContentUint64()
 			if err != nil {
 				return true
 			}
-			if *t.treasure.Content.Uint64 != uintContent {
+			if *own.Content.Uint64 != uintContent {
 				return true
 			}
 		}
 	case ContentTypeInt8:
-		if t.treasure.Content == nil {
+		if own.Content == nil {
 			return true
 		} else {
 			intContent, err := otherTreasure.GetContentInt8()
 			if err != nil {
 				return true
 			}
-			if *t.treasure.Content.Int8 != intContent {
+			if *own.Content.Int8 != intContent {
 				return true
 			}
 		}
 	case ContentTypeInt16:
-		if t.treasure.Content == nil {
+		if own.Content == nil {
 			return true
 		} else {
 			intContent, err := otherTreasure.GetContentInt16()
 			if err != nil {
 				return true
 			}
-			if *t.treasure.Content.Int16 != intContent {
+			if *own.Content.Int16 != intContent {
 				return true
 			}
 		}
 	case ContentTypeInt32:
-		if t.treasure.Content == nil {
+		if own.Content == nil {
 			return true
 		} else {
 			intContent, err := otherTreasure.GetContentInt32()
 			if err != nil {
 				return true
 			}
-			if *t.treasure.Content.Int32 != intContent {
+			if *own.Content.Int32 != intContent {
 				return true
 			}
 		}
 	case ContentTypeInt64:
-		if t.treasure.Content == nil {
+		if own.Content == nil {
 			return true
 		} else {
 			intContent, err := otherTreasure.GetContentInt64()
 			if err != nil {
 				return true
 			}
-			if *t.treasure.Content.Int64 != intContent {
+			if *own.Content.Int64 != intContent {
 				return true
 			}
 		}
 	case ContentTypeFloat32:
-		if t.treasure.Content == nil {
+		if own.Content == nil {
 			return true
 		} else {
 			floatContent, err := otherTreasure.GetContentFloat32()
 			if err != nil {
 				return true
 			}
-			if *t.treasure.Content.Float32 != floatContent {
+			if *own.Content.Float32 != floatContent {
 				return true
 			}
 		}
 	case ContentTypeFloat64:
-		if t.treasure.Content == nil {
+		if own.Content == nil {
 			return true
 		} else {
 			floatContent, err := otherTreasure.GetContentFloat64()
 			if err != nil {
 				return true
 			}
-			if *t.treasure.Content.Float64 != floatContent {
+			if *own.Content.Float64 != floatContent {
 				return true
 			}
 		}
 	case ContentTypeBoolean:
-		if t.treasure.Content == nil {
+		if own.Content == nil {
 			return true
 		} else {
 			boolContent, err := otherTreasure.GetContentBool()
 			if err != nil {
 				return true
 			}
-			if *t.treasure.Content.Boolean != boolContent {
+			if *own.Content.Boolean != boolContent {
 				return true
 			}
 		}
 	case ContentTypeByteArray:
-		if t.treasure.Content == nil {
+		if own.Content == nil {
 			return true
 		} else {
 			byteArrayContent, err := otherTreasure.GetContentByteArray()
 			if err != nil {
 				return true
 			}
-			if !reflect.DeepEqual(t.treasure.Content.ByteArray, byteArrayContent) {
+			if !reflect.DeepEqual(own.Content.ByteArray, byteArrayContent) {
 				return true
 			}
 		}
 	case ContentTypeUint32Slice:
-		if t.treasure.Content == nil {
+		if own.Content == nil {
 			return true
 		} else {
 			uint32SliceContent, err := otherTreasure.Uint32SliceGetAll()
 			if err != nil {
 				return true
 			}
-			if !reflect.DeepEqual(t.treasure.Content.Uint32Slice, uint32SliceContent) {
+			if !reflect.DeepEqual(own.Content.Uint32Slice, uint32SliceContent) {
 				return true
 			}
 		}
